@@ -100,6 +100,74 @@ func (t *c15tbl) addVal(v cty.Value) {
 	}
 }
 
+// addSetMembersOfDoc supplies the hash oracle for set members when the real decoder did
+// not return a value to read them from (error or panic): every element of an array that
+// is decoded against a set type is decoded on its own and hashed.
+func (t *c15tbl) addSetMembersOfDoc(b []byte, ty cty.Type, depth int) {
+	if depth > 8 {
+		return
+	}
+	try(func() {
+		switch {
+		case ty == cty.DynamicPseudoType:
+			var w map[string]json.RawMessage
+			if json.Unmarshal(b, &w) != nil || w["type"] == nil || w["value"] == nil {
+				return
+			}
+			it, err := ctyjson.UnmarshalType(w["type"])
+			if err != nil {
+				return
+			}
+			t.addSetMembersOfDoc(w["value"], it, depth+1)
+		case ty.IsListType() || ty.IsSetType():
+			var a []json.RawMessage
+			if json.Unmarshal(b, &a) != nil {
+				return
+			}
+			for _, e := range a {
+				t.addSetMembersOfDoc(e, ty.ElementType(), depth+1)
+				if ty.IsSetType() {
+					try(func() {
+						if ev, err := ctyjson.Unmarshal(e, ty.ElementType()); err == nil {
+							t.addVal(ev)
+							t.addMember(ev.Type(), ev)
+						}
+					})
+				}
+			}
+		case ty.IsTupleType():
+			var a []json.RawMessage
+			if json.Unmarshal(b, &a) != nil {
+				return
+			}
+			etys := ty.TupleElementTypes()
+			for i, e := range a {
+				if i < len(etys) {
+					t.addSetMembersOfDoc(e, etys[i], depth+1)
+				}
+			}
+		case ty.IsMapType():
+			var m map[string]json.RawMessage
+			if json.Unmarshal(b, &m) != nil {
+				return
+			}
+			for _, e := range m {
+				t.addSetMembersOfDoc(e, ty.ElementType(), depth+1)
+			}
+		case ty.IsObjectType():
+			var m map[string]json.RawMessage
+			if json.Unmarshal(b, &m) != nil {
+				return
+			}
+			for k, e := range m {
+				if ty.HasAttribute(k) {
+					t.addSetMembersOfDoc(e, ty.AttributeType(k), depth+1)
+				}
+			}
+		}
+	})
+}
+
 func (t *c15tbl) String() string {
 	var sb strings.Builder
 	sb.WriteString("(tbl (nfc")
@@ -480,6 +548,8 @@ func c15Unmarshal(ctx *Ctx, b []byte, t cty.Type) (v cty.Value, outcome string) 
 	if outcome == "ok" {
 		impl = "ok " + encVal(v)
 		tb.addVal(v)
+	} else if strings.Contains(encTy(t), "(E ") || strings.Contains(encTy(t), "D") {
+		tb.addSetMembersOfDoc(b, t, 0)
 	}
 	ctx.Add("json.unmarshal", impl, tb.String(), tree, encTy(t))
 	ctx.Tag("unmarshal:" + outcome)
@@ -492,6 +562,16 @@ func c15RoundTrip(ctx *Ctx, v cty.Value, t cty.Type, how string) {
 	b, mo := c15Marshal(ctx, v, t)
 	side := c15Side(v, t)
 	in := encVal(v) + " " + encTy(t)
+	{
+		// do the hypotheses of C15.roundtrip_partial hold?  Lean's own predicates (driver)
+		// against the Go mirror that names the root cause of a failure.
+		all := map[string]bool{}
+		c15SideAll(v, t, false, all)
+		tb := newC15tbl()
+		tb.addVal(v)
+		ctx.Add("json.applies", encBool(!all["num-reparse"] && !all["nonconforming"])+" "+encBool(!strings.Contains(encTy(v.Type()), "(E "))+" "+
+			encBool(!all["typeloss-null"] && !all["typeloss-empty"]), tb.String(), encVal(v), encTy(t))
+	}
 	fail := func(kind, what, outcome string) {
 		sig := kind + ":unexpected"
 		if side != "" {
@@ -573,6 +653,10 @@ func c15Rejects(ctx *Ctx, v cty.Value, t cty.Type) {
 func runC15(ctx *Ctx) {
 	r := ctx.R
 	depth := ctx.N(3, 4)
+	// 0. corpus: the minimised witnesses of the recorded findings (they must keep
+	// reproducing, or the record is stale), then the small scope, enumerated
+	runC15Corpus(ctx)
+	runC15Enum(ctx)
 	// 1. round trips
 	n := ctx.N(1500, 40000)
 	for i := 0; i < n; i++ {
@@ -598,4 +682,41 @@ func runC15(ctx *Ctx) {
 	// 3. documents, number parsing, NumOK
 	runC15Docs(ctx)
 	sort.Strings(ctx.res.Samples)
+}
+
+func runC15Corpus(ctx *Ctx) {
+	str := cty.StringVal
+	pairs := []struct {
+		v cty.Value
+		t cty.Type
+	}{
+		{cty.NullVal(cty.List(cty.String)), cty.List(cty.DynamicPseudoType)},
+		{cty.ListValEmpty(cty.Bool), cty.List(cty.DynamicPseudoType)},
+		{cty.NullVal(cty.Object(map[string]cty.Type{"a": cty.String})), cty.ObjectWithOptionalAttrs(map[string]cty.Type{"a": cty.String}, []string{"a"})},
+		{cty.ListVal([]cty.Value{cty.NullVal(cty.List(cty.String)), cty.ListVal([]cty.Value{str("a")})}), cty.List(cty.List(cty.DynamicPseudoType))},
+		{cty.ListVal([]cty.Value{cty.ListValEmpty(cty.String), cty.ListVal([]cty.Value{str("a")})}), cty.List(cty.List(cty.DynamicPseudoType))},
+		{cty.NumberFloatVal(1e23), cty.Number},
+		{cty.SetVal([]cty.Value{cty.NumberFloatVal(3.9477794105)}), cty.Set(cty.Number)},
+		{cty.SetVal([]cty.Value{cty.NumberFloatVal(3.9477794105), cty.MustParseNumberVal("3.9477794105")}), cty.Set(cty.Number)},
+	}
+	for _, p := range pairs {
+		c15RoundTrip(ctx, p.v, p.t, "corpus")
+	}
+	docs := []struct {
+		doc string
+		t   cty.Type
+	}{
+		{"[]", cty.Tuple([]cty.Type{cty.String})},
+		{`{"value":[],"type":["tuple",["string"]]}`, cty.DynamicPseudoType},
+		{`[[]]`, cty.List(cty.Tuple([]cty.Type{cty.String}))},
+		{`[{"value":1,"type":"number"},{"value":"a","type":"string"}]`, cty.List(cty.DynamicPseudoType)},
+		{`[{"value":1,"type":"number"},{"value":"a","type":"string"}]`, cty.Set(cty.DynamicPseudoType)},
+		{`{"a":{"value":1,"type":"number"},"b":{"value":"a","type":"string"}}`, cty.Map(cty.DynamicPseudoType)},
+		{`[1,"a"]`, cty.List(cty.DynamicPseudoType)},
+		{`{"value":1,"type":["object",{"a":"string"},["b"]]}`, cty.DynamicPseudoType},
+	}
+	for _, d := range docs {
+		c15Unmarshal(ctx, []byte(d.doc), d.t)
+	}
+	c15Doc(ctx, &jdoc{kind: 'o', keys: []string{"e\u0301"}, kids: []*jdoc{{kind: 'n'}}})
 }
